@@ -55,7 +55,7 @@ PROPS = {
         not_covered=[
             'memory safety of the unsafe blocks below the transport seam (get_message_body::set_len, Reader::read_obj, FuseDevWriter raw Vecs, virtio copy_nonoverlapping) and descriptor-chain construction',
             '"a reply IS sent" on every success path ([C01.answer]): handlers consume their context by value, so only "at most one, and exactly the specified one" is provable; helpers reply_ok/do_reply_error are proved to emit exactly one message when they return Ok',
-            'Server::do_readdir (closure capturing &mut cursor passed as &mut dyn FnMut): contract assumed',
+            'SETXATTR handler (iter().position has no Verus specification): contract assumed',
             'that the concrete FuseDevWriter / VirtioFsWriter refine the abstract Writer (assume-guarantee seam, DESIGN 3.4d)',
         ],
         trusted=['T3 prelude models (ByteValued as byte function with decode(encode(x)) == x, io::Error, slices/CStr, bitflags, ArcSwap)',
@@ -66,7 +66,7 @@ PROPS = {
         vx_units=['server', 'arcfs'], kx=[],
         design_ref='DESIGN.md section 5, C02',
         not_covered=[
-            'READDIR / READDIRPLUS (Server::do_readdir not verified) and, until verified, the handlers listed as body=assumed in functions_under_contract',
+            'SETXATTR (handler body assumed: iter().position); the handlers listed as body=assumed in functions_under_contract',
             'that result-less calls (forget, batch_forget, destroy) happen at least once, and "exactly one call" as opposed to "no other call": capabilities forbid every other call but cannot demand one',
             'identity of the payload reader handed to FileSystem::write and of the writer handed to read (only their non-stream arguments are pinned)',
             'Arc<FS> forwarding of readdir / readdirplus (&mut dyn FnMut)',
@@ -79,8 +79,7 @@ PROPS = {
         design_ref='DESIGN.md section 5, C03',
         not_covered=[
             'the memory image of each wire struct (sbytes is an uninterpreted function of the struct value): that is C13, decided by KX',
-            'Server::do_readdir framing (max = size, fresh cursor, len = 16 + bytes written): by inspection only',
-            'Kstatfs::from(statvfs64) and stat64::from(SetattrIn) are uninterpreted here (field preservation: KX, C13)',
+            'the two add_entry closures of Server::do_readdir are abstracted by their free parameters (cursor, size limit) - extraction fails (exit 2) if their text is anything but `add_dirent(&mut cursor, <limit>, d, None|Some(e))`; that a filesystem calls add_entry and nothing else on the cursor is assumed (T8)',
         ],
         trusted=['T3 as C01', 'T4 as C01'],
     ),
